@@ -227,6 +227,22 @@ class ReachingDefs:
 
         return R().visit(_copy.deepcopy(expr))
 
+    def def_expr(self, node_id: int, expr):
+        """If expr is a local name with a single reaching value definition, that definition's
+        expression (whatever it is); else expr itself."""
+        seen = 0
+        while isinstance(expr, ast.Name) and seen < 5:
+            defs = self.at(node_id, expr.id)
+            if len(defs) != 1:
+                break
+            (d,) = defs
+            info = self.def_info(d, expr.id)
+            if not info or info[0] != "value" or not isinstance(info[1], ast.AST):
+                break
+            expr, node_id = info[1], d
+            seen += 1
+        return expr
+
     def text(self, node_id: int, expr) -> str:
         return ast.unparse(self.resolve(node_id, expr)) if expr is not None else ""
 
